@@ -225,6 +225,10 @@ func checkC06(c *core.Ctx) {
 	c.Explain = "CODEC (DESIGN.md 3.6): for every layer type that has both DecodeFromBytes and SerializeTo, two maps field -> {(byte offset, width, byte order)} are extracted from the SSA — from decode (field := conv(ByteOrder.UintN(data[a:b])) | data[k] | data[a:b], offsets followed through constant re-slices) and from serialize (PutUintN(bytes[a:], conv(field)) | bytes[k] = conv(field) | copy(bytes[a:b], field), relative to the first PrependBytes/AppendBytes result). (R6.1) For every field with plain encodings on both sides, every encoding of the side with fewer alternatives must appear on the other side (conditional layouts have several); bit-packed or variable-offset fields create no obligation. (R6.3) SerializeLayers' innermost-first protocol is decided under C18. Fields decoded but never serialized are reported as information only. Not decided: lengths, padding and alignment of option lists, payload preservation, re-serialization equality."
 	r1 := c.Rule("R6.1", "D", "fixed-offset codec agreement (offset, width, byte order) between DecodeFromBytes and SerializeTo")
 	r2 := c.Rule("R6.2", "D", "information: decoded fields that SerializeTo never reads")
+	r3 := c.Rule("R6.3", "T", "16-bit limit tests agree with what is narrowed: the quantity converted to uint16 for a length field does not exceed the quantity the function tests against 65535")
+	narrowGuardAgreement(c, r3)
+	r4 := c.Rule("R6.4", "T", "a serializer links an extension header in front of the upper-layer protocol only under a guard that fails once it is linked")
+	chainInsertGuarded(c, r4)
 	sl := p.Iface("", "SerializableLayer")
 	nTypes, nPaired := 0, 0
 	for _, d := range roots.Dec {
